@@ -109,7 +109,14 @@ func renameObjs(pk *packages.Package, f *ast.File, params bool) int {
 	if params {
 		suffix = "Rn"
 	}
+	implicit := map[types.Object]bool{}
+	for _, o := range pk.TypesInfo.Implicits {
+		implicit[o] = true // the per-clause variables of `switch u := x.(type)`: their declaring identifier has no object
+	}
 	want := func(o types.Object) bool {
+		if implicit[o] {
+			return false
+		}
 		v, ok := o.(*types.Var)
 		if !ok || v.IsField() || o.Name() == "_" || o.Parent() == nil || o.Parent() == pk.Types.Scope() || o.Pkg() != pk.Types {
 			return false
